@@ -139,17 +139,19 @@ theorem C14_lookup_params :
 
 /-! ## the text denotes the quantity (composition with C18) -/
 
-/-- **C14_denotes** (real annotations) — given C18 at the level of the text
-(`C18_real_partial_statement`, open), the text of a DC voltage, current or potential
-annotation reads back to within half a unit of the `p`-th digit of the solution's value with
-the sign rule. -/
+/-- **C14_denotes** (real annotations, unconditional) — the text of a DC voltage, current or
+potential annotation reads back (`parseBack`) to a number within half a unit of the `p`-th
+digit of the solution's value in the element's reference direction, negated exactly when the
+annotation is requested in reverse, in engineering form and with the unit of the quantity;
+every non-zero value below `1e16` outside the rounds-up-to-one region (open finding 1). -/
 theorem annotText_eq {k : Kind} {qt : Quantity} {a : Adapter} (ha : findAdapter k qt = some a) (reverse : Bool)
     (q : GQ) (d : Derived) (o : Opts) : annotText k qt reverse q d o = textOf a (signedValue a reverse q) d o := by
   unfold annotText; rw [ha]
 
-theorem C14_denotes_real (h18 : C18_real_partial_statement) (qt : Quantity) (hqt : qt ≠ .power) (reverse : Bool)
+theorem C14_denotes_real (qt : Quantity) (hqt : qt ≠ .power) (reverse : Bool)
     (q : GQ) (d : Derived) (o : Opts) (hp : 1 ≤ o.precision) (h0 : (specValue qt reverse q).re ≠ 0)
-    (hn : ¬ RoundsUpToOne (specValue qt reverse q).re o.precision) :
+    (hn : ¬ RoundsUpToOne (specValue qt reverse q).re o.precision)
+    (h16 : |(specValue qt reverse q).re| < 10000000000000000) :
     ∃ s, annotText .real qt reverse q d o = some s
       ∧ RealOK (specValue qt reverse q).re o.precision 3 (specUnit qt) s := by
   obtain ⟨a, ha, _, hs, hpr, hu⟩ := C14_adapters .real qt
@@ -167,14 +169,73 @@ theorem C14_denotes_real (h18 : C18_real_partial_statement) (qt : Quantity) (hqt
     · cases qt <;> first | (show UnitOK ['V']; decide) | (show UnitOK ['A']; decide) | (show UnitOK ['W']; decide)
     · show CC.Gen.Fmt.print_real_call0.table.Admissible
       exact Table.admissible_sound (by decide)
-    · show CC.Gen.Fmt.print_real_call0.table.si = true
-      decide
-  have key := h18 (cfgOfCall CC.Gen.Fmt.print_real_call0 (specUnit qt) o.precision) (specValue qt reverse q).re h0 hcfg hn
+    · refine ⟨?_, ?_, ?_⟩
+      · show CC.Gen.Fmt.print_real_call0.table.si = true
+        decide
+      · show CC.Gen.Fmt.print_real_call0.table.minKey % 3 = 0
+        decide
+      · show CC.Gen.Fmt.print_real_call0.table.maxKey % 3 = 0
+        decide
+  have key := C18_real_domain (cfgOfCall CC.Gen.Fmt.print_real_call0 (specUnit qt) o.precision)
+    (specValue qt reverse q).re h0 hcfg hn h16
   refine ⟨_, ?_, key⟩
   rw [annotText_eq ha, hv]
   unfold textOf
   simp only [hprinter, hunit, ↓reduceIte, Option.getD_some]
   rfl
+
+/-- **C14_denotes** (complex Cartesian annotations) — the text of a complex voltage, current,
+power or potential annotation (compact Cartesian form) is `[-]T_re`, `±jT_im`, `jT_im` or
+`[-]T_re±jT_im`, the signs being those of the real and imaginary part of the solution's value
+with the sign rule, and each part text reads back (`parseBack`) to the magnitude of its part
+within half a unit of the `p`-th digit, in engineering form, with the unit of the quantity. -/
+theorem C14_denotes_complex (qt : Quantity) (reverse : Bool) (q : GQ) (d : Derived) (o : Opts)
+    (hpol : o.polar = false) (hp : 1 ≤ o.precision)
+    (hre : InDomain (specValue qt reverse q).re o.precision) (him : InDomain (specValue qt reverse q).im o.precision) :
+    ∃ Tre Tim : List Char,
+      (let sr : List Char := if 0 ≤ (specValue qt reverse q).re then [] else ['-']
+       let si : List Char := if 0 ≤ (specValue qt reverse q).im then ['+'] else ['-']
+       annotText .complex qt reverse q d o = some (sr ++ Tre)
+        ∨ annotText .complex qt reverse q d o = some (si ++ ['j'] ++ Tim)
+        ∨ annotText .complex qt reverse q d o = some (['j'] ++ Tim)
+        ∨ annotText .complex qt reverse q d o = some (sr ++ Tre ++ si ++ ['j'] ++ Tim))
+      ∧ RealOK (qabs (specValue qt reverse q).re) o.precision 3 (specUnit qt) Tre
+      ∧ RealOK (qabs (specValue qt reverse q).im) o.precision 3 (specUnit qt) Tim := by
+  obtain ⟨a, ha, _, hs, hpr, hu⟩ := C14_adapters .complex qt
+  obtain ⟨a', ha', hv⟩ := C14_denotes_value .complex qt reverse q
+  have haa : a' = a := by rw [ha] at ha'; exact (Option.some.inj ha').symm
+  subst haa
+  have hprinter : a'.printer = "print_complex" := by rw [hpr]; cases qt <;> rfl
+  have hunit : a'.unit = some (specUnit qt) := by
+    rcases hu with h | ⟨h, _, _⟩
+    · exact h
+    · rw [hprinter] at h; exact absurd h (by decide)
+  have hcfg : CfgOK (scOfCall CC.Gen.Fmt.print_complex_call0 (specUnit qt) o.precision o.polar o.deg).toSFCfg := by
+    refine ⟨hp, ?_, fun _ => ⟨?_, ?_, ?_, ?_⟩⟩
+    · cases qt <;> first | (show UnitOK ['V']; decide) | (show UnitOK ['A']; decide) | (show UnitOK ['W']; decide)
+    · show CC.Gen.Fmt.print_complex_call0.table.Admissible
+      exact Table.admissible_sound (by decide)
+    · show CC.Gen.Fmt.print_complex_call0.table.si = true
+      decide
+    · show CC.Gen.Fmt.print_complex_call0.table.minKey % 3 = 0
+      decide
+    · show CC.Gen.Fmt.print_complex_call0.table.maxKey % 3 = 0
+      decide
+  have hpolar : (scOfCall CC.Gen.Fmt.print_complex_call0 (specUnit qt) o.precision o.polar o.deg).polar = false := by
+    show (CC.Gen.Fmt.print_complex_call0.polar.getD o.polar) = false
+    rw [hpol]; rfl
+  have key := C18_complex_parts (scOfCall CC.Gen.Fmt.print_complex_call0 (specUnit qt) o.precision o.polar o.deg)
+    (specValue qt reverse q).re (specValue qt reverse q).im d.absV d.angle hpolar hcfg hre him
+  have htext : annotText .complex qt reverse q d o
+      = some ((scOfCall CC.Gen.Fmt.print_complex_call0 (specUnit qt) o.precision o.polar o.deg).str
+          (specValue qt reverse q).re (specValue qt reverse q).im d.absV d.angle) := by
+    rw [annotText_eq ha, hv]
+    unfold textOf
+    simp only [hprinter, hunit, Option.getD_some]
+    rfl
+  refine ⟨_, _, ?_, key.2.1, key.2.2⟩
+  simp only [htext, Option.some.injEq]
+  exact key.1
 
 /-! ## agreement between the kinds of annotation -/
 
